@@ -19,7 +19,7 @@ VARIABLE l
 
 Ran(s) == {s[i] : i \in 1..Len(s)}
 Ev == Rec[l]
-CfgOfEv(e) == Cfg(Ran(e.files), Ran(e.items), e.site, e.imps, Ran(e.locals), e.depth, e.ref)
+CfgOfEv(e) == Cfg2(Ran(e.files), Ran(e.items), e.site, e.imps, Ran(e.locals), e.depth, e.ref, Ran(e.sibs), e.forms)
 
 ExportsOk(c, e) == (e.obs.k # "err") => (Exports(c) = Ran(e.got))
 
